@@ -25,7 +25,7 @@ def optimizeWith (g : Guard) (fl : Flags) (fns : ConstFns) (w : World) (n : Node
   let n3 ← if fns.isEmpty then pure n2
            else repeatPass ws (guarded g .constExpr (constExprRule fl fns w)) constExprWalks n2
   let n4 := (walk ws (guarded g .inRange (inRangeRule fl)) n3 {}).1
-  let n5 := (walk ws (guarded g .constRange constRangeRule) n4 {}).1
+  let n5 := (walk ws (guarded g .constRange (constRangeRule fl)) n4 {}).1
   pure n5
 
 /-- `optimizer.Optimize(&node, config)`: the new tree, or the location of the compile error -/
